@@ -612,3 +612,10 @@ def d6(cx: Cx, ob: Ob) -> None:
                         strict = any(k.arg == "strict" and isinstance(k.value, ast.Constant) and k.value.value is True for k in c.keywords)
                         if not strict:
                             ob.violate(fn.qualname, f"src/curies/resolver_service.py:{c.lineno}", f"{fn.name} memoises `{ast.unparse(c)[:50]}`, which returns None for an unknown prefix: the miss is remembered after the converter has learnt the prefix", detail=f"memoised-query:{c.func.attr}")
+
+
+@obligation("C17-X1", "OWN (shared with C10): the app factories resolve through the converter they are given - they do not build a private converter over the same Record objects, whose lookup tables would stay as they were when the app was built while the caller goes on adding prefixes to the original", floor=6)
+def x1(cx: Cx, ob: Ob) -> None:
+    from .c10 import check_no_aliasing
+
+    check_no_aliasing(cx, ob)
